@@ -1,6 +1,8 @@
 import XpmVerif.Proofs.SchedFinal
 /-! Continuation of `Proofs/SchedFinal.lean` (C06): the waiter of `experiment.wait()` (invariants `InvW`,
-    `quiescent_waiter`), and a concrete livelock of aborted starts (`livelock_cycle_snap`). -/
+    `quiescent_waiter`), the livelock of aborted starts without the `abortReleases` repair (`livelock_cycle_snap`),
+    the same schedule with the repair (`livelock_fixed_facts`), the two key lemmas towards termination
+    (`abort_changes_nothing`, `abort_records_wait`) and the spinning job with a doubled token (`self_spin_snap`). -/
 set_option linter.unusedSimpArgs false
 set_option linter.unusedVariables false
 namespace XpmVerif.SchedFinal
@@ -72,6 +74,11 @@ theorem codeTail_frameW (s : St) (x : Nat) : FrameW s (codeTail s x) := by
   unfold codeTail
   exact finish_frameW _ x
 
+theorem abortRelease_frameW (fl : Flags) (s : St) (x : Nat) : FrameW s (abortRelease fl s x) := by
+  unfold abortRelease; split
+  · exact releaseAll_frameW s x _
+  · rfl
+
 theorem resume_frameW (fl : Flags) (s : St) (x : Nat) (hnd : (s.jobs x).pc ≠ .doneHandler) :
     FrameW s (s.resume fl x) := by
   cases hp : (s.jobs x).pc with
@@ -82,7 +89,7 @@ theorem resume_frameW (fl : Flags) (s : St) (x : Nat) (hnd : (s.jobs x).pc ≠ .
     obtain ⟨s1, fa⟩ := r
     unfold enterTail
     cases fa with
-    | some d => exact hA.trans (FrameW.trans (check_frameW fl s1 x d) rfl)
+    | some d => exact hA.trans (FrameW.trans (abortRelease_frameW fl s1 x) (FrameW.trans (check_frameW fl _ x d) rfl))
     | none => exact hA
   | lockExitAbort =>
     rw [resume_lockExitAbort fl s x hp]
@@ -325,8 +332,12 @@ def livelockPrefix : List Ev :=
 def livelockCycle : List Ev :=
   [.step, .step, .deliver 1, .deliver 0, .step, .step, .step, .step, .deliver 1, .deliver 0, .step, .step, .step]
 
+/-- the three earlier repairs, but an aborted start keeps its partial locks until its lock-release segment. -/
+def flNoRelease : Flags :=
+  { readyGuarded := true, resubmitRegisters := true, abortRechecks := true, abortReleases := false }
+
 def livelockState (k : Nat) : St :=
-  runEvs flOK [1, 1] (livelockSubmits ++ livelockPrefix ++ (List.replicate k livelockCycle).flatten)
+  runEvs flNoRelease [1, 1] (livelockSubmits ++ livelockPrefix ++ (List.replicate k livelockCycle).flatten)
 
 theorem livelock_cycle_snap :
     snap (livelockState 1) = snap (livelockState 0) ∧ snap (livelockState 2) = snap (livelockState 0) ∧
@@ -338,6 +349,213 @@ theorem livelock_cycle_facts :
     ((livelockState 0).jobs 1).launches = 0 ∧ ((livelockState 0).jobs 2).launches = 0 ∧
     (livelockState 0).threads = [] ∧ (livelockState 0).ready = [.resume 2, .resume 1] ∧
     (livelockState 0).avail 0 = 0 ∧ (livelockState 0).avail 1 = 1 := by decide
+
+/-- with the `abortReleases` repair the same events do not loop: after the cycle B has been launched; after three turns
+    and nine more events everything is final, A and B have both run once. -/
+def livelockFixedTail : List Ev := [.deliver 0, .step, .step, .step, .step, .step, .step, .deliver 0, .step]
+
+def livelockFixedState (k : Nat) (tail : List Ev) : St :=
+  runEvs flOK [1, 1] (livelockSubmits ++ livelockPrefix ++ (List.replicate k livelockCycle).flatten ++ tail)
+
+theorem livelock_fixed_facts :
+    ((livelockFixedState 1 []).jobs 2).launches = 1 ∧
+    (livelockFixedState 3 livelockFixedTail).n = 3 ∧
+    ((livelockFixedState 3 livelockFixedTail).jobs 0).pc = .finished .done ∧
+    ((livelockFixedState 3 livelockFixedTail).jobs 1).pc = .finished .done ∧
+    ((livelockFixedState 3 livelockFixedTail).jobs 2).pc = .finished .done ∧
+    ((livelockFixedState 3 livelockFixedTail).jobs 1).launches = 1 ∧
+    ((livelockFixedState 3 livelockFixedTail).jobs 2).launches = 1 ∧
+    (livelockFixedState 3 livelockFixedTail).ready = [] ∧ (livelockFixedState 3 livelockFixedTail).threads = [] ∧
+    (livelockFixedState 3 livelockFixedTail).avail 0 = 1 ∧ (livelockFixedState 3 livelockFixedTail).avail 1 = 1 ∧
+    (livelockFixedState 3 livelockFixedTail).unfinished = 0 := by decide
+
+
+
+/-! ## with `abortReleases`, an aborted start changes no token state -/
+
+theorem check_avail_held (fl : Flags) (s : St) (j d : Nat) :
+    (s.check fl j d).avail = s.avail ∧ ∀ i, ((s.check fl j d).jobs i).held = (s.jobs i).held := by
+  refine ⟨(check_fields fl s j d).1, fun i => ?_⟩
+  by_cases hi : i = j
+  · subst hi; rw [check_job]; exact (depChanged_state fl _ d _).2.2.2.2.1
+  · rw [check_job_ne _ _ _ _ _ hi]
+
+/-- key lemma for termination: for `abortReleases = true`, the start segment of job `j` (pc `lockEnter`, nothing held,
+    as invariant G guarantees) that fails to take its `d`-th lock leaves `avail` and every job's `held` as they were
+    (it only queues notifications, re-checks the failing dependency and moves `j` to `lockExitAbort`). -/
+theorem abort_changes_nothing (fl : Flags) (ha : fl.abortReleases = true) (s : St) (j d : Nat)
+    (hpc : (s.jobs j).pc = .lockEnter) (hh : (s.jobs j).held = [])
+    (hfail : (s.acquireAll j (s.jobs j).deps.length 0).2 = some d) :
+    (s.resume fl j).avail = s.avail ∧ (∀ i, ((s.resume fl j).jobs i).held = (s.jobs i).held) ∧
+    ((s.resume fl j).jobs j).pc = .lockExitAbort := by
+  rw [resume_lockEnter fl s j hpc]
+  obtain ⟨acq, av', e1, e2, _, _⟩ := acquireAll_eq s j (s.jobs j).deps.length 0
+  generalize hr : St.acquireAll s j (s.jobs j).deps.length 0 = r at e1 hfail
+  obtain ⟨s1, fa⟩ := r
+  simp only at e1 hfail
+  subst hfail
+  unfold enterTail abortRelease
+  simp only [ha, if_true]
+  obtain ⟨notes, _, e3⟩ := releaseAll_eq s1 j (s1.jobs j).held
+  have hj1 : s1.jobs j = { (s.jobs j) with held := acq } := by rw [e1]; simp [hh]
+  have hc := check_avail_held fl (s1.releaseAll j (s1.jobs j).held) j d
+  refine ⟨?_, ?_, ?_⟩
+  · show ((s1.releaseAll j (s1.jobs j).held).check fl j d).avail = s.avail
+    rw [hc.1, e3]
+    funext t
+    simp only [put_avail]
+    rw [hj1]
+    simp only
+    have := e2 t
+    rw [e1]; simp only [put_avail]
+    omega
+  · intro i
+    show ((((s1.releaseAll j (s1.jobs j).held).check fl j d).put j _ [] [(.lockExit, j)]).jobs i).held = _
+    by_cases hi : i = j
+    · subst hi
+      simp only [put_jobs, upd_same]
+      rw [hc.2, e3]; simp [hh]
+    · simp only [put_jobs, upd_ne _ _ hi]
+      rw [hc.2, e3]
+      simp only [put_jobs, upd_ne _ _ hi]
+      rw [e1]; simp [upd_ne _ _ hi]
+  · simp
+
+
+
+/-- what a failed acquisition had taken: indices before the failing one (or held before). -/
+theorem acquireAll_held_lt (j : Nat) : ∀ k d (s : St) (e : Nat), (St.acquireAll s j k d).2 = some e →
+    d ≤ e ∧ ∀ i ∈ ((St.acquireAll s j k d).1.jobs j).held, i ∈ (s.jobs j).held ∨ (d ≤ i ∧ i < e) := by
+  intro k
+  induction k with
+  | zero => intro d s e h; simp [St.acquireAll] at h
+  | succ k ih =>
+    intro d s e h
+    cases ho : ((s.jobs j).deps.getD d default).origin with
+    | job o =>
+      simp only [St.acquireAll, ho] at h ⊢
+      obtain ⟨h1, h2⟩ := ih (d + 1) _ e h
+      refine ⟨by omega, fun i hi => ?_⟩
+      rcases h2 i hi with h3 | h3
+      · simp only [put_jobs, upd_same, List.mem_append, List.mem_singleton] at h3
+        rcases h3 with h3 | h3
+        · exact Or.inl h3
+        · exact Or.inr ⟨by omega, by omega⟩
+      · exact Or.inr ⟨by omega, h3.2⟩
+    | tok t c =>
+      simp only [St.acquireAll, ho] at h ⊢
+      by_cases hlt : s.avail t < c
+      · simp only [hlt, if_true] at h ⊢
+        simp only [Option.some.injEq] at h
+        subst h
+        exact ⟨Nat.le_refl _, fun i hi => Or.inl hi⟩
+      · simp only [hlt, if_false] at h ⊢
+        obtain ⟨h1, h2⟩ := ih (d + 1) _ e h
+        refine ⟨by omega, fun i hi => ?_⟩
+        rcases h2 i hi with h3 | h3
+        · simp only [put_jobs, upd_same, List.mem_append, List.mem_singleton] at h3
+          rcases h3 with h3 | h3
+          · exact Or.inl h3
+          · exact Or.inr ⟨by omega, by omega⟩
+        · exact Or.inr ⟨by omega, h3.2⟩
+
+theorem sum_map_zero (l : List Nat) (f : Nat → Nat) (h : ∀ i ∈ l, f i = 0) : (l.map f).sum = 0 := by
+  induction l with
+  | nil => rfl
+  | cons a l ih =>
+    simp only [List.map_cons, List.sum_cons]
+    rw [h a (List.mem_cons_self ..), ih (fun i hi => h i (List.mem_cons_of_mem _ hi))]
+
+/-- second key lemma for termination: with `abortReleases`, if the failing token is not requested by another
+    dependency of the same job, an aborted start records the failing dependency as WAIT — so the job's counter is
+    positive and it goes back to sleep instead of retrying at once. -/
+theorem abort_records_wait (fl : Flags) (ha : fl.abortReleases = true) (s : St) (j e : Nat)
+    (hpc : (s.jobs j).pc = .lockEnter) (hh : (s.jobs j).held = [])
+    (hfail : (s.acquireAll j (s.jobs j).deps.length 0).2 = some e)
+    (hnodup : ∀ i t c c', i ≠ e → (depAt (s.jobs j) e).origin = .tok t c → (depAt (s.jobs j) i).origin ≠ .tok t c') :
+    e < (s.jobs j).deps.length ∧ (depAt ((s.resume fl j).jobs j) e).cur = .wait := by
+  have hlt := acquireAll_lt s j (s.jobs j).deps.length 0 e hfail
+  have hfails := ((acquireAll_ind (fun _ => True) j (0 + (s.jobs j).deps.length) (fun _ _ _ _ _ => trivial)
+    (s.jobs j).deps.length 0 s rfl trivial).2 e hfail).2
+  have hheld := (acquireAll_held_lt j (s.jobs j).deps.length 0 s e hfail).2
+  obtain ⟨acq, av', e1, e2, _, _⟩ := acquireAll_eq s j (s.jobs j).deps.length 0
+  rw [resume_lockEnter fl s j hpc]
+  generalize hr : St.acquireAll s j (s.jobs j).deps.length 0 = r at e1 hfail hfails hheld
+  obtain ⟨s1, fa⟩ := r
+  simp only at e1 hfail hfails hheld
+  subst hfail
+  have hj1 : s1.jobs j = { (s.jobs j) with held := acq } := by rw [e1]; simp [hh]
+  have hlen : e < (s.jobs j).deps.length := by simpa using hlt
+  refine ⟨hlen, ?_⟩
+  -- the failing dependency is a token dependency, and `j` took nothing of that token
+  unfold acqFails at hfails
+  rw [hj1] at hfails
+  simp only at hfails
+  cases ho : ((s.jobs j).deps.getD e default).origin with
+  | job o => rw [ho] at hfails; exact absurd hfails id
+  | tok t c =>
+    rw [ho] at hfails
+    simp only at hfails
+    have hacq0 : sumTok (s.jobs j).deps acq t = 0 := by
+      unfold sumTok
+      apply sum_map_zero
+      intro i hi
+      have hi' : i ∈ (s1.jobs j).held := by rw [hj1]; exact hi
+      rcases hheld i hi' with h3 | h3
+      · rw [hh] at h3; cases h3
+      · have hne : i ≠ e := by omega
+        have := hnodup i t c
+        unfold tokCount
+        cases hoi : ((s.jobs j).deps.getD i default).origin with
+        | job _ => rfl
+        | tok t' c' =>
+          simp only
+          split
+          · rename_i htt; subst htt
+            exact absurd hoi (this c' hne ho)
+          · rfl
+    have hav1 : s1.avail t = s.avail t := by
+      have := e2 t
+      rw [hacq0] at this
+      rw [e1]; simp only [put_avail]; omega
+    -- after the immediate release the token is as it was, hence still unavailable
+    unfold enterTail abortRelease
+    simp only [ha, if_true, put_jobs, upd_same]
+    obtain ⟨notes, _, e3⟩ := releaseAll_eq s1 j (s1.jobs j).held
+    have hrel_job : ((s1.releaseAll j (s1.jobs j).held).jobs j) = { (s.jobs j) with held := [] } := by
+      rw [releaseAll_job, hj1]
+    have hrel_av : (s1.releaseAll j (s1.jobs j).held).avail t = s.avail t := by
+      rw [e3]; simp only [put_avail]
+      rw [hj1]; simp only
+      rw [hacq0, hav1]; simp
+    have hA := depChanged_depAt fl ((s1.releaseAll j (s1.jobs j).held).jobs j) e
+      ((s1.releaseAll j (s1.jobs j).held).status (depAt ((s1.releaseAll j (s1.jobs j).held).jobs j) e).origin)
+      (by rw [hrel_job]; exact hlen)
+    have ej : ((s1.releaseAll j (s1.jobs j).held).check fl j e).jobs j = _ := check_job fl _ j e
+    show (depAt { (((s1.releaseAll j (s1.jobs j).held).check fl j e).jobs j) with pc := .lockExitAbort } e).cur = .wait
+    have : (depAt { (((s1.releaseAll j (s1.jobs j).held).check fl j e).jobs j) with pc := PC.lockExitAbort } e)
+        = depAt (((s1.releaseAll j (s1.jobs j).held).check fl j e).jobs j) e := rfl
+    rw [this, ej]
+    have hcur := hA.2.2.2
+    unfold depAt at hcur ⊢
+    rw [hcur, hrel_job]
+    simp only
+    rw [ho]
+    simp only [St.status, hrel_av]
+    rw [hav1] at hfails
+    split
+    · omega
+    · rfl
+
+/-- a single job with two dependencies on the same token whose sum exceeds the total (each one alone fits) spins for
+    ever, even with all four repairs: prefix `[submit, step]`, cycle of 6 events. -/
+def selfSpinState (k : Nat) : St :=
+  runEvs flOK [1] ([.submit 0 [.tok 0 1, .tok 0 1] 0 false, .step] ++
+    (List.replicate k [Ev.deliver 0, .step, .deliver 0, .step, .step, .step]).flatten)
+
+theorem self_spin_snap :
+    snap (selfSpinState 1) = snap (selfSpinState 0) ∧ snap (selfSpinState 2) = snap (selfSpinState 0) ∧
+    ((selfSpinState 0).jobs 0).pc = .lockEnter ∧ ((selfSpinState 0).jobs 0).launches = 0 := by decide +kernel
 
 
 end XpmVerif.SchedFinal
